@@ -71,3 +71,23 @@ Lemma ts_cache_race_witness_exact :
   let s := ts_run any_params 4 2 cache_scripts (removelast cache_sched) in
   t_dups s = 0%nat /\ t_out s = [(2, 0); (3, 0); (0, 0); (1, 0)]%nat /\ t_alloc s = 3%nat /\ t_free s = 2%nat.
 Proof. vm_compute. repeat split; reflexivity. Qed.
+
+(* --- witness 3: exhaustion reported on a stale expected value (no racy window hit, no double hand-out).
+   cap 4.  Schedule taken from the implementation trace of findings/C05-ts-stale-null.case: T1 enters alloc
+   with expected = 3 (alloc_pos = 0 = cached_free_pos) and is preempted around its load of free_idx; T0
+   allocates twice (alloc_idx = 1) and frees until free_idx = 0; T1 compares its stale alloc_pos 0 with
+   free_idx 0 and returns NULL although only one block is out of the ring. *)
+Definition stale_scripts (t : nat) : list op :=
+  match t with
+  | 0 => [OpAlloc; OpFreeOwn 3; OpAlloc; OpFreeOwn 3; OpAlloc; OpAlloc; OpFreeOwn 0]
+  | 1 => [OpAlloc; OpFreeOwn 0; OpFreeOwn 1; OpAlloc; OpAlloc]
+  | _ => []
+  end%nat.
+Definition stale_sched : list (nat * nat) :=
+  [(0, 0); (1, 0); (1, 0); (1, 0); (1, 0); (0, 0); (1, 0); (0, 0); (0, 0); (0, 0); (0, 0); (0, 0); (0, 0); (0, 0); (0, 0); (1, 0); (1, 0); (1, 0); (0, 0); (0, 0); (1, 0); (1, 0); (1, 0); (1, 0); (1, 0); (1, 0); (0, 0); (0, 0); (0, 0); (0, 0); (0, 0); (0, 0); (0, 0); (0, 0); (0, 0); (0, 0); (0, 0); (0, 0); (0, 0); (0, 0); (0, 0); (0, 0); (0, 0); (0, 0); (0, 0); (0, 0); (0, 0); (0, 0); (0, 0); (0, 0); (1, 0); (1, 0); (1, 0); (1, 0); (1, 0); (0, 0); (0, 0); (0, 0); (0, 0); (0, 0); (0, 0); (0, 0); (0, 0); (0, 0); (0, 0); (0, 0); (0, 0); (1, 0); (1, 0); (0, 0); (0, 0); (0, 0); (0, 0); (0, 0); (0, 0); (0, 0); (0, 0); (0, 0); (0, 0); (0, 0); (0, 0); (0, 0); (0, 0); (0, 0); (0, 0); (1, 0); (1, 0)]%nat.
+
+Lemma ts_stale_null_witness :
+  let s := ts_run any_params 4 2 stale_scripts stale_sched in
+  count_allocators stale_scripts 2 = 2%nat /\ t_race s = false /\ t_dups s = 0%nat /\ t_badnull s = 1%nat /\
+  t_A s = 5%nat /\ t_F s = 4%nat /\ length (t_out s) = 1%nat.
+Proof. vm_compute. repeat split; reflexivity. Qed.
